@@ -127,6 +127,13 @@ func runC19Interleave(env *Env, rc *RunCtx) {
 		nameList = append(nameList, n)
 	}
 	sort.Strings(nameList)
+	// names that no version declares: another spelling of a declared one, and a stranger
+	for _, n := range append([]string{}, nameList...) {
+		if l := strings.ToLower(n); l != n && !allNames[l] {
+			nameList = append(nameList, l)
+		}
+	}
+	nameList = append(nameList, "NoSuchNamespace")
 	has := func(state int, name string) bool {
 		return strings.Contains(" "+strings.Trim(namesAt[state], "[]")+" ", " "+name+" ")
 	}
@@ -169,6 +176,9 @@ func runC19Interleave(env *Env, rc *RunCtx) {
 		defer func() {
 			if r := recover(); r != nil {
 				ls.Uninstall()
+				if outcome == "deadlock" && strings.Contains(fmt.Sprint(r), "blocked goroutines remain") {
+					return // the goroutines of the deadlock reported below: they can never be released
+				}
 				rc.Violate("panic", "interleave/"+kind, fmt.Sprint(r), desc(map[string]any{"schedule": ls.Trace, "history": hist}), 0, et)
 			}
 		}()
@@ -304,6 +314,7 @@ func runC19Interleave(env *Env, rc *RunCtx) {
 	rc.AddSchedule(fnv64(fmt.Sprint(ls.Trace), 0))
 	rc.Count("lock_acquisitions_scheduled", ls.Acquired)
 	rc.Count("lock_contended", ls.Contended)
+	rc.Count("readers_behind_a_waiting_writer", ls.ReadersBehindWriter)
 	rc.Count("schedule_choices", ls.YieldsTaken)
 	rc.Count("reloads", K)
 	rc.Rec.NonTrivial = ls.YieldsTaken >= 4
